@@ -416,8 +416,51 @@ def special_items():
     yield Item(["Error", "Display"], '#[display("e")]\npub struct @N@(::std::boxed::Box<dyn ::std::error::Error + ::core::marker::Send + ::core::marker::Sync + \'static>);', ("special", "error-boxed-dyn", "none", "plain", "inferred"), std_derives=["Debug"])
 
 
+def cross_items():
+    """Attribute combinations whose handling needs two code sites to agree (added after seeded-defect misses)."""
+    for g in GENERICS:
+        if g.lt or g.U:
+            continue
+        E = g.T or "Leaf"
+        disp = '#[display("e")]\n'
+        # ignored / other fields in front of, between and behind the source
+        yield Item(["Error", "Display"], "%spub struct @N@%s%s { #[error(ignore)] id: u32, source: %s }" % (disp, g.g, g.w, E), ("error", "named-ignore-first", g.key, "plain", "ignore+inferred"), std_derives=["Debug"])
+        yield Item(["Error", "Display"], "%spub struct @N@%s(#[error(ignore)] u32, #[error(source)] %s)%s;" % (disp, g.g, E, g.w), ("error", "tuple-ignore-first", g.key, "plain", "ignore+source"), std_derives=["Debug"])
+        yield Item(["Error", "Display"], "%spub struct @N@%s(#[error(source)] %s, #[error(ignore)] u32, u8)%s;" % (disp, g.g, E, g.w), ("error", "tuple-ignore-middle", g.key, "plain", "source+ignore"), std_derives=["Debug"])
+        vs = ['#[display("a")] A(#[error(ignore)] u8, #[error(source)] %s)' % E, '#[display("b")] B { #[error(ignore)] x: u8, y: u16, source: %s }' % E,
+              '#[display("c")] #[error(ignore)] C(#[error(source)] Leaf, u8)']
+        yield Item(["Error", "Display"], enum_src(g, vs), ("error", "enum-ignore-before-source", g.key, "plain", "ignore+source"), std_derives=["Debug"])
+        # From: forward / types / skip on variants in every order
+        w = "::std::vec::Vec<%s>" % g.T if g.T else "i64"
+        y = "[%s; 2]" % g.U if g.U else "u16"
+        yield Item(["From"], enum_src(g, ["#[from(forward)] A(%s)" % w, "B { x: u8, y: %s }" % y, "U"]), ("from-enum", "forward-first", g.key, "plain", "forward"))
+        yield Item(["From"], enum_src(g, ["Plain(u32)", "#[from] A(%s)" % w, "#[from(forward)] B { x: u8, y: %s }" % y]), ("from-enum", "unannotated-first", g.key, "plain", "#[from],forward"))
+        yield Item(["From"], enum_src(g, ["#[from(skip)] S(u32)", "A(%s)" % w, "#[from(u8, u16)] C(u64)"]), ("from-enum", "skip-first", g.key, "plain", "skip,types"))
+        # selection of a non-first tuple field
+        v = "::std::vec::Vec<%s>" % (g.T or "i32")
+        others = [t for t in param_payload(g) if t != g.T] or ["u8"]
+        yield Item(["Deref", "DerefMut", "Index", "IndexMut", "IntoIterator"], struct_src(g, False, others + [v], attrs=["#[deref(ignore)] #[deref_mut(ignore)] #[index(ignore)] #[index_mut(ignore)] #[into_iterator(ignore)]"] * len(others) + [""]),
+                   ("deleg-all", ("tuple", "last-selected"), g.key, "plain", "ignore-others"))
+        yield Item(["Deref", "DerefMut", "Index", "IndexMut", "IntoIterator"], struct_src(g, False, others + [v], attrs=[""] * len(others) + ["#[deref] #[deref_mut] #[index] #[index_mut] #[into_iterator]"]),
+                   ("deleg-all", ("tuple", "last-selected"), g.key, "plain", "attr"))
+        # Into with skipped fields in front
+        if not (g.T or g.lt):
+            yield Item(["Into"], struct_src(g, False, ["i8", "i16", "i32"], attrs=["#[into(skip)]", "", ""]), ("into", ("tuple", "skip-first"), g.key, "plain", "skip"))
+            yield Item(["Into"], struct_src(g, False, ["i8", "i16", "i32"], attrs=["#[into(skip)]", "", ""], item_attrs="#[into((i64, i128))]\n#[into(owned, ref, ref_mut)]\n"), ("into", ("tuple", "skip-first"), g.key, "plain", "skip+types"))
+            yield Item(["Into"], struct_src(g, False, ["i8", "i16"], item_attrs="#[into(ref)]\n#[into(ref_mut)]\n"), ("into", ("tuple", 2), g.key, "plain", "ref;ref_mut"))
+            yield Item(["Into"], struct_src(g, False, ["i8", "i16"], item_attrs="#[into(owned)]\n#[into(ref_mut)]\n"), ("into", ("tuple", 2), g.key, "plain", "owned;ref_mut"))
+        # accessors: ignored variant first, reference selections alone
+        pay = param_payload(g, "::std::vec::Vec<{}>") if (g.T or g.lt) else ["i32"]
+        vs = ["#[is_variant(ignore)] #[unwrap(ignore)] #[try_unwrap(ignore)] Hidden(u8)", "Alpha(%s)" % pay[0], "Beta(u16, %s)" % pay[-1], "Unit"]
+        yield Item(["IsVariant", "Unwrap", "TryUnwrap"], enum_src(g, vs), ("accessors", "ignored-first", g.key, "plain", "ignore"))
+        for sel in ("ref", "ref_mut", "owned"):
+            yield Item(["Unwrap", "TryUnwrap"], enum_src(g, ["Alpha(%s)" % pay[0], "Beta(u16, %s)" % pay[-1], "Unit"], item_attrs="#[unwrap(%s)]\n#[try_unwrap(%s)]\n" % (sel, sel)), ("accessors", "tuple+unit", g.key, "plain", sel))
+        vs = ["Id(u32)", "Name(%s)" % pay[0], "Count(u32)", "Pair(u8, u8)", "Unit", "Other(u8, u8)"]
+        yield Item(["TryInto"], enum_src(g, vs), ("try_into", "non-adjacent-groups", g.key, "plain", "-"))
+
+
 def all_items():
-    return list(itertools.chain(ops_items(), fmt_items(), conv_items(), deleg_items(), enum_access_items(), error_items(), special_items()))
+    return list(itertools.chain(cross_items(), ops_items(), fmt_items(), conv_items(), deleg_items(), enum_access_items(), error_items(), special_items()))
 
 
 def hostile_variants(item):
